@@ -79,9 +79,9 @@ def parse_real(case):
     from kyupy.circuit import Circuit
     with quiet():
         if case['fmt'] == 'verilog':
-            c = verilog.parse(case['text'], tlib=get_tlib(case['tlib']), branchforks=case['bf'])
+            c = common.after_failed_parse(verilog.parse, case['text'], tlib=get_tlib(case['tlib']), branchforks=case['bf'])
         else:
-            c = bench.parse(case['text'])
+            c = common.after_failed_parse(bench.parse, case['text'])
     if not isinstance(c, Circuit):      # every generated text holds exactly one module
         raise TypeError(f'parse returned {type(c).__name__} of length {len(c) if hasattr(c, "__len__") else "?"} instead of one Circuit')
     return c
